@@ -4,12 +4,15 @@
 
    Reading guide
      GuardedBy l   every access outside constructors holds lock l (writers exclusively)
+     GuardedMono l GuardedBy l, and every write outside constructors assigns the constant true (a latch)
      SyncTyped     sync.Mutex/RWMutex/Once/WaitGroup/Map, atomic.Pointer held BY VALUE: only ever
                    used through its own methods; never re-assigned after construction.
                    LIMIT: this takes the methods to be safe for arbitrary concurrent use.  That is
                    not the whole contract of sync.WaitGroup ("Add from zero must happen before
                    Wait"): the dynamic leg found exactly such a race on PIDZero.wg
-                   (known finding race:sync-contract:supervisor.PIDZero.Shutdown$go1)
+                   (race:sync-contract:supervisor.PIDZero.Shutdown$go1, repaired in /repo 00876a0).
+                   For struct fields of type sync.WaitGroup that contract is now expressed by the
+                   pseudo-field <field>#addwait, which needs a policy of its own
      CtorOnly      assigned only in New*/With* (before the value is shared), then read-only.
                    Channels, contexts, loggers, function values, *lifecycle.StartStop, the fsm
                    are all references that are set once; what they point to is synchronised by
@@ -46,11 +49,27 @@ Definition pol_pidzero : policy := [
   P "supervisor.PIDZero" "shutdownOnce" SyncTyped;
   P "supervisor.PIDZero" "stateMap" SyncTyped;
   P "supervisor.PIDZero" "stateSubscribers" SyncTyped;
-  P "supervisor.PIDZero" "subscriberMutex" SyncTyped
-  (* when hooks/fix-c17c-supervisor-launch-gate.patch (or an equivalent repair of the wg.Go / wg.Wait
-     race) lands, add:
-       P "supervisor.PIDZero" "launchMu" SyncTyped;
-       P "supervisor.PIDZero" "launchClosed" (GuardedBy "supervisor.PIDZero.launchMu")           *)
+  P "supervisor.PIDZero" "subscriberMutex" SyncTyped;
+  (* the launch gate of /repo 00876a0 *)
+  P "supervisor.PIDZero" "launchMu" SyncTyped;
+  P "supervisor.PIDZero" "launchClosed" (GuardedMono "supervisor.PIDZero.launchMu");
+  P "supervisor.PIDZero" "runEntered" (GuardedMono "supervisor.PIDZero.launchMu");
+  P "supervisor.PIDZero" "launched" (GuardedBy "supervisor.PIDZero.launchMu");
+  (* HBVia "launch-gate" (pseudo-field wg#addwait: Add/Go = write, Wait = read; the ordering contract
+     of sync.WaitGroup "Add from zero must happen before Wait", modelled as the race detector does).
+     Machine-checked preconditions: every Add/Go site holds launchMu exclusively (two Go's are then
+     ordered by the lock) and carries the path condition "!$.launchClosed" observed under that very
+     lock hold; every Wait site carries the history fact "set:$.launchClosed" (the same goroutine, or
+     the one that spawned it, executed `launchClosed = true` before), launchClosed is a latch
+     (GuardedMono: only ever assigned true, under launchMu).  Trusted conclusion: a Go either
+     precedes the closing critical section in the lock order - and then happens-before the Wait -
+     or observes the latch and is not executed. *)
+  P "supervisor.PIDZero" "wg#addwait"
+    (HBVia "launch-gate"
+       [mkHB "supervisor.PIDZero.launch" "supervisor.PIDZero.Shutdown$go1"
+             ["!$.launchClosed"] ["set:$.launchClosed"] [("supervisor.PIDZero.launchMu", Ex)] [];
+        mkHB "supervisor.PIDZero.launch" "supervisor.PIDZero.Shutdown"
+             ["!$.launchClosed"] ["set:$.launchClosed"] [("supervisor.PIDZero.launchMu", Ex)] []])
 ].
 
 (* --- lifecycle.StartStop: four plain fields, all under mu (Started re-makes the channels
@@ -60,7 +79,8 @@ Definition pol_lifecycle : policy := [
   P "lifecycle.StartStop" "stopCh" (GuardedBy "lifecycle.StartStop.mu");
   P "lifecycle.StartStop" "startedCh" (GuardedBy "lifecycle.StartStop.mu");
   P "lifecycle.StartStop" "doneCh" (GuardedBy "lifecycle.StartStop.mu");
-  P "lifecycle.StartStop" "stopped" (GuardedBy "lifecycle.StartStop.mu")
+  P "lifecycle.StartStop" "stopped" (GuardedBy "lifecycle.StartStop.mu");
+  P "lifecycle.StartStop" "gen" (GuardedBy "lifecycle.StartStop.mu")   (* reset counter, /repo b0569e6 *)
 ].
 
 (* --- finitestate.Machine: two pointers set by newMachine. *)
@@ -81,7 +101,9 @@ Definition pol_machine : policy := [
    the FSM is in Booting (repo commit 350754d), i.e. only inside Run's first boot: Run's select
    reads it later in the same goroutine, the children (startRunnable) are spawned by that boot
    after the write (go statement), and a Reload cannot be in boot at that time because
-   Running->Reloading is impossible from Booting.  Nothing ever leads back to New/Booting. *)
+   Running->Reloading is impossible from Booting.  Nothing ever leads back to New/Booting.
+   The guard itself is checked: the pair is listed only for a boot site that carries the path
+   condition "$.fsm.GetState() == finitestate.StatusBooting" (reverting 350754d fails table_ok). *)
 Definition pol_composite : policy := [
   P "composite.Runner" "fsm" CtorOnly;
   P "composite.Runner" "lc" CtorOnly;
@@ -91,10 +113,14 @@ Definition pol_composite : policy := [
   P "composite.Runner" "reloadMu" SyncTyped;
   P "composite.Runner" "runnablesMu" SyncTyped;
   P "composite.Runner" "ctx"
-    (HBVia "composite-run-then-reload" [("composite.Runner.Run", "composite.Runner.reloadWithRestart")]);
+    (HBVia "composite-run-then-reload" [HB "composite.Runner.Run" "composite.Runner.reloadWithRestart"]);
   P "composite.Runner" "serverErrors"
-    (HBVia "composite-initial-boot" [("composite.Runner.boot", "composite.Runner.Run");
-                                     ("composite.Runner.boot", "composite.Runner.startRunnable")]);
+    (HBVia "composite-initial-boot"
+       (* the write in boot is excused only where it is lexically guarded by the Booting test *)
+       [mkHB "composite.Runner.boot" "composite.Runner.Run"
+             ["$.fsm.GetState() == finitestate.StatusBooting"] [] [] [];
+        mkHB "composite.Runner.boot" "composite.Runner.startRunnable"
+             ["$.fsm.GetState() == finitestate.StatusBooting"] [] [] []]);
   P "composite.Runner" "logger" CtorOnly
 ].
 
@@ -153,8 +179,9 @@ Definition exceptions : list fkey := [].
 (* every HBVia entry, for the evidence file *)
 Definition hbvia_entries : list string :=
   flat_map (fun e : fkey * fpolicy => match snd e with
-                     | HBVia n ps => map (fun p : string * string =>
+                     | HBVia n ps => map (fun p : hbpair =>
                                              fst (fst e) +++ "." +++ snd (fst e) +++ " [" +++ n +++ "] "
-                                             +++ fst p +++ " / " +++ snd p) ps
+                                             +++ hb_f p +++ " {" +++ String.concat " && " (hb_cf p) +++ "} / "
+                                             +++ hb_g p +++ " {" +++ String.concat " && " (hb_cg p) +++ "}") ps
                      | _ => []
                      end) policy_all.
